@@ -1394,6 +1394,30 @@ def wcnf_text(nv, hard, soft, rng):
     return text
 
 
+def cardnet_wcnf(rng):
+    """Unweighted instances with 5-9 soft clauses (mostly unit softs over distinct variables, some
+    longer ones) and hard binary clauses that force several of them to be falsified: the sorting
+    network of the cardinality encoding then has blocks of four and more inputs and is strengthened
+    over several bounds (optimum 2-5)."""
+    nv = rng.randint(6, 8)
+    vs = list(range(1, nv + 1))
+    rng.shuffle(vs)
+    nunit = rng.randint(5, min(nv, 8))
+    soft = [{"w": 1, "lits": [v if rng.random() < 0.8 else -v]} for v in vs[:nunit]]
+    for _ in range(rng.randint(0, 2)):
+        soft.append({"w": 1, "lits": [rng.choice([1, -1]) * v for v in rng.sample(range(1, nv + 1), 2)]})
+    hard = []
+    units = [s_["lits"][0] for s_ in soft if len(s_["lits"]) == 1]
+    rng.shuffle(units)
+    # pairs of unit softs that cannot both hold
+    for i in range(0, len(units) - 1, 2):
+        if rng.random() < 0.8:
+            hard.append([-units[i], -units[i + 1]])
+    for _ in range(rng.randint(0, 3)):
+        hard.append([rng.choice([1, -1]) * v for v in rng.sample(range(1, nv + 1), rng.randint(2, 3))])
+    return nv, hard, soft, True
+
+
 def check_C15(res, tier, seed):
     import random
     rng = random.Random(seed * 104729 + 15)
@@ -1402,8 +1426,9 @@ def check_C15(res, tier, seed):
     events = []
     eid = 0
     pair = 0
-    for fi in range(n(tier, 250, 2500)):
-        nv, hard, soft, unweighted = random_wcnf(rng, tier)
+    nrand = n(tier, 250, 2500)
+    for fi in range(nrand + n(tier, 60, 600)):
+        nv, hard, soft, unweighted = random_wcnf(rng, tier) if fi < nrand else cardnet_wcnf(rng)
         text = wcnf_text(nv, hard, soft, rng)
         pair += 1
         encs = ["generalized-totalizer"] + (["cardinality-network"] if unweighted else [])
